@@ -117,7 +117,7 @@ data_t sequential_inner(ParVector &x, ParVector &y){
 	return inner_prod;
     }
 
-    if (rank > 1)
+    if (rank > 0)
     {
         RAPtor_MPI_Recv(&inner_prod, 1, RAPtor_MPI_DATA_T, rank-1, 1, RAPtor_MPI_COMM_WORLD, RAPtor_MPI_STATUS_IGNORE);
     }
